@@ -6,6 +6,8 @@ import (
 	"context"
 
 	hwebsocket "github.com/aukilabs/hagall-common/websocket"
+	"github.com/prometheus/client_golang/prometheus"
+	dto "github.com/prometheus/client_model/go"
 )
 
 // VerifConn gives the /verif harness access to the unexported per-connection
@@ -26,3 +28,17 @@ func (v *VerifConn) Handler() Handler { return v.h.Handler }
 
 // VerifSendChanSize exposes the capacity of the per-connection send channel.
 const VerifSendChanSize = sendChanSize
+
+// VerifConnectedClients sums the ws_connected_clients gauge over its labels.
+func VerifConnectedClients() float64 {
+	ch := make(chan prometheus.Metric, 64)
+	go func() { wsConnectedClients.Collect(ch); close(ch) }()
+	var sum float64
+	for m := range ch {
+		var d dto.Metric
+		if m.Write(&d) == nil && d.GetGauge() != nil {
+			sum += d.GetGauge().GetValue()
+		}
+	}
+	return sum
+}
